@@ -13,6 +13,10 @@ variable {α : Type} [Sc α] [ScOrd α]
 theorem feq_refl {a : α} (h : isNaN a = false) : feq a a = true :=
   le_antisymm_feq (le_refl h) (le_refl h)
 
+/-- IEEE equality of numbers implies `≤` both ways (law-level: from totality and `feq`). -/
+theorem feq_le {a b : α} (h : feq a b = true) : a ≤ b := ScOrd.feq_le h
+theorem feq_ge {a b : α} (h : feq a b = true) : b ≤ a := ScOrd.feq_ge h
+
 /-- `fmin hi x` with a non-NaN `hi` is a number not above `hi`, whatever `x` is. -/
 theorem fmin_le_left {hi : α} (x : α) (hhi : isNaN hi = false) :
     isNaN (fmin hi x) = false ∧ fmin hi x ≤ hi := by
